@@ -147,7 +147,7 @@ class Z3Solver:
                 return st2, m2, dt + dt2
         tm.set_relax_ints(True)
         tm.set_abstract_floor(False)
-        if self.cvc5 and status in ("unsat", "sat") and kind == "main":
+        if self.cvc5 and status in ("unsat", "sat") and kind == "main" and self._cvc5_budget():
             other = self._cvc5(s)
             if other in ("unsat", "sat"):
                 st.cvc5_queries += 1
@@ -156,13 +156,25 @@ class Z3Solver:
                     status = "unknown"
         return status, model, dt
 
+    def _cvc5_budget(self) -> bool:
+        """Second-opinion budget per obligation: the first 8 decided main queries, 90 s in total (cvc5 1.0.3 is slow on NRA)."""
+        n = getattr(self, "_cvc5_n", 0)
+        t = getattr(self, "_cvc5_t", 0.0)
+        return n < 8 and t < 90.0
+
     def _cvc5(self, s) -> str:
+        t0 = time.time()
+        self._cvc5_n = getattr(self, "_cvc5_n", 0) + 1
         try:
-            with tempfile.NamedTemporaryFile("w", suffix=".smt2", delete=False, dir=os.environ.get("VERIF_WORK", "/tmp")) as f:
+            work = os.environ.get("VERIF_WORK") or os.path.join(os.path.dirname(os.path.dirname(os.path.abspath(__file__))), "work")
+            os.makedirs(work, exist_ok=True)
+            with tempfile.NamedTemporaryFile("w", suffix=".smt2", delete=False, dir=work) as f:
                 f.write("(set-logic ALL)\n" + s.to_smt2())
                 path = f.name
             try:
-                p = subprocess.run(["cvc5", f"--tlimit={max(self.timeout_ms, 1000)}", path], capture_output=True, text=True, timeout=self.timeout_ms / 1000 + 10)
+                lim = min(max(self.timeout_ms, 1000), 15000)
+                p = subprocess.run(["cvc5", f"--tlimit={lim}", path], capture_output=True, text=True, timeout=lim / 1000 + 10)
+                self._cvc5_t = getattr(self, "_cvc5_t", 0.0) + time.time() - t0
                 out = p.stdout.strip().splitlines()
                 if "(error" in p.stdout or "(error" in p.stderr:
                     return "error"
